@@ -583,6 +583,24 @@ func (il *inliner) inlineCall(fn *ssa.Function, b *ssa.BasicBlock, idx int, call
 		if splitReturn(cont) {
 			cleanup(fn)
 		}
+		// threading can move the results into the block behind the caller's test of them
+		// (`v, err := helper(); if err != nil { return x, err }`): that return is split the same way
+		for again := true; again; {
+			again = false
+			for _, blk := range fn.Blocks {
+				inl := false
+				for _, in := range blk.Instrs {
+					if ph, ok := in.(*ssa.Phi); ok && strings.HasPrefix(ph.Comment, "inl.") {
+						inl = true
+					}
+				}
+				if inl && splitReturn(blk) {
+					cleanup(fn)
+					again = true
+					break
+				}
+			}
+		}
 	}
 }
 
@@ -1388,6 +1406,12 @@ func (p *Prog) Delegators(fn *ssa.Function) []*ssa.Function {
 	seen := map[*ssa.Function]bool{}
 	bad := false
 	for g := range p.allFuncs {
+		if strings.HasPrefix(g.Synthetic, "wrapper for ") && fn.Signature.Recv() != nil {
+			// promoted-method wrapper (a type embedding the receiver) of an unexported method that
+			// no interface names: nothing can reach it. (Bound-method and method-expression thunks
+			// are not skipped: they mean the method escapes as a value.)
+			continue
+		}
 		for _, b := range g.Blocks {
 			for _, in := range b.Instrs {
 				cc := CallOf(in)
